@@ -31,7 +31,9 @@ where
         eigenvalue = next_eigenvalue;
         eigenvector = normalised_eigenvector;
         if ea < es {
-            return Ok((eigenvalue, eigenvector));
+            // Scale so that the largest component is 1 (a negative eigenvalue flips the signs)
+            let largest = eigenvector.max().unwrap();
+            return Ok((eigenvalue, &eigenvector / largest));
         }
     }
     Err(Arr2DError::NoConvergence)
